@@ -229,8 +229,15 @@ var pathTransformers = map[string]bool{
 	"(*net/url.URL).EscapedPath": true, "(*net/url.URL).JoinPath": true, "net/url.JoinPath": true,
 }
 
+// hostTransformers change the content of the host label (case folding, replacement).
+var hostTransformers = map[string]bool{
+	"strings.ToLower": true, "strings.ToUpper": true, "strings.Title": true, "strings.ToTitle": true,
+	"strings.Replace": true, "strings.ReplaceAll": true, "strings.Map": true, "(*strings.Replacer).Replace": true,
+	"golang.org/x/net/idna.ToASCII": true, "golang.org/x/net/idna.ToUnicode": true,
+}
+
 func rule163(r *core.Run, mws []hostMW) {
-	r.Rule("R16.3", "every value stored to URL.Path by a host middleware derives from Request.Host and the incoming URL.Path (plus constants and, for the base middleware, the configured bases) and from no other part of the request; the incoming path reaches the store through concatenation only — no transforming call (clean, join, trim, replace, escape, case) is applied to it")
+	r.Rule("R16.3", "every value stored to URL.Path by a host middleware derives from Request.Host and the incoming URL.Path (plus constants and, for the base middleware, the configured bases) and from no other part of the request; the incoming path reaches the store through concatenation only — no transforming call (clean, join, trim, replace, escape, case) is applied to it, and no case-folding or replacing call to the Host header")
 	for _, m := range mws {
 		name := fname(r, m.serve)
 		n := 0
@@ -266,6 +273,21 @@ func rule163(r *core.Run, mws []hostMW) {
 					as := r.P.SliceOf(a, core.SliceOpts{BindParams: true})
 					if as.Has("field:net/url.URL.Path") {
 						bad = cn + " applied to the incoming path at " + pos(r, c.(ssa.Instruction))
+					}
+				}
+			}
+			// the label is the Host header's first label as sent: a bucket name is case-sensitive
+			// (upper case is invalid), so folding or rewriting the host makes the host form accept
+			// or address what the path form refuses
+			for c := range s.Calls {
+				cn := r.P.CalleeName(c)
+				if !hostTransformers[cn] {
+					continue
+				}
+				for _, a := range c.Common().Args {
+					as := r.P.SliceOf(a, core.SliceOpts{BindParams: true})
+					if as.Has("field:net/http.Request.Host") {
+						bad = cn + " applied to the Host header at " + pos(r, c.(ssa.Instruction))
 					}
 				}
 			}
@@ -550,6 +572,28 @@ func rule165(r *core.Run) {
 		for _, l := range s.LeafList("field:net/") {
 			if l != "field:net/url.URL.Path" && l != "field:net/http.Request.URL" {
 				bad = l
+			}
+		}
+		// the key is the path segment as sent for every method: nothing is appended to it, and which
+		// value it takes does not depend on the request method
+		for v := range s.Values {
+			switch x := v.(type) {
+			case *ssa.BinOp:
+				if bt, isB := x.Type().Underlying().(*types.Basic); isB && bt.Info()&types.IsString != 0 && x.Op == token.ADD {
+					bad = "a string is appended to it at " + pos(r, x)
+				}
+			case *ssa.Phi:
+				for i, pred := range x.Block().Preds {
+					if i >= len(x.Edges) {
+						break
+					}
+					for _, g := range core.GuardsOfEdge(pred, x.Block()) {
+						gs := r.P.SliceOf(g.If.Cond, core.SliceOpts{Depth: -1})
+						if gs.Has("field:net/http.Request.Method") {
+							bad = "its value depends on the request method (test at " + pos(r, g.If) + ")"
+						}
+					}
+				}
 			}
 		}
 		r.Check(okStrip && split2 && bad == "" && s.Has("field:net/url.URL.Path"), "R16.5", key(fname(r, rb), "bucket/key from the stripped path", cn), pos(r, in),
